@@ -5,6 +5,8 @@ use std::mem::swap;
 use vstd::prelude::*;
 use vstd::arithmetic::mul::*;
 use vstd::arithmetic::div_mod::*;
+use vstd::arithmetic::power2::*;
+use vstd::bits::*;
 use vstd::std_specs::cmp::{PartialEqSpec, PartialEqSpecImpl, PartialOrdSpec, PartialOrdSpecImpl, OrdSpec};
 use vstd::std_specs::ops::*;
 verus! {
@@ -14,4 +16,26 @@ pub assume_specification<T: std::cmp::Ord>[std::cmp::max](a: T, b: T) -> (r: T)
     ensures T::obeys_cmp_spec() ==> r == (if a.cmp_spec(&b) == Ordering::Greater { a } else { b });
 pub assume_specification<T: std::cmp::Ord>[std::cmp::min](a: T, b: T) -> (r: T)
     ensures T::obeys_cmp_spec() ==> r == (if b.cmp_spec(&a) == Ordering::Less { b } else { a });
+
+
+/// Helper that stands for `v.iter().map(|&x| x as u32).collect()` (rewrite R3): element-wise truncating cast.
+fn narrow_u64(v: &Vec<u64>) -> (r: Vec<u32>)
+    ensures
+        r@.len() == v@.len(),
+        forall|k: int| 0 <= k < v@.len() ==> r@[k] == (#[trigger] v@[k]) as u32,
+{
+    let mut r: Vec<u32> = Vec::new();
+    let mut k: usize = 0;
+    while k < v.len()
+        invariant
+            k <= v@.len(),
+            r@.len() == k,
+            forall|q: int| 0 <= q < k ==> r@[q] == (#[trigger] v@[q]) as u32,
+        decreases v@.len() - k,
+    {
+        r.push(#[verifier::truncate] (v[k] as u32));
+        k += 1;
+    }
+    r
+}
 
